@@ -17,6 +17,7 @@ from hypothesis import strategies as st
 import common
 import farm
 import farmcheck
+import zoo
 import expmodel
 import p21gen
 import p21render
@@ -227,7 +228,7 @@ def main(tier, seed):
                          make_strategy=lambda lib: cases(lib["schema"], cfg), case_fn=case,
                          confirm_fn=lambda lib, f, wd: bool(oracle(lib, f["pop_exp"], f["text"], {int(k): v for k, v in f["states"].items()}, wd, "confirm", f.get("strict", False))),
                          replay_files=lambda f: {"input.p21": f["text"], "case.json": json.dumps({"pop_exp": f["pop_exp"], "states": f["states"], "strict": f.get("strict", False)})},
-                         schema_cfg=c01.SCHEMA_CFG)
+                         schema_cfg=c01.SCHEMA_CFG, extra_schemas=[zoo.ZOO])
 
 
 def replay(path):
